@@ -380,6 +380,8 @@ def replay_ct(ctx, rec):
                     else:
                         obj = lena.core.Split(els3, copy_buf=copy_buf)
                     oouts = ct_ops(obj, rec["hist"])
+                    if zipped:      # named tuples (fields) are checked above: compare the contents
+                        oouts = [[tuple(tup) for tup in o] for o in oouts]
                 except Exception as exc:   # noqa
                     oouts = "raised " + exc_name(exc)
                 if zipped:
@@ -584,7 +586,8 @@ def run(ctx):
              "of the four classes with <= 4 branches; forms: every way of handing a branch to Split, result "
              "multiplicities 0/1/2, Sources with tails, Splits as branches; modes: the same object rerun, "
              "abandoned at every point, two runs interleaved) with copy_buf in {T,F}, flows given as iterator / "
-             "list / tuple / range / generator and as odd objects, and every behaviour of SplitCT (common-type "
+             "list / tuple / range / generator and as odd objects, results that look like nothing (None, 0, \"\", (), [], False, "
+             "StopIteration) from Sources, compute and request, and every behaviour of SplitCT (common-type "
              "methods in every legal order, Zip with reset and fields, branches as elements / tuples / sequence "
              "objects); non-trivial = at least one branch and a non-empty flow; C2S: seeded random "
              "configurations (<= 5 branches of all kinds and forms, N <= 30) validated by Trace_Split",
